@@ -39,6 +39,12 @@ CLAIMS = {
          "DESIGN.md §3 C06",
          "Trusted: the sampling primitives below the HAL behave as documented; do-while abstraction of row/column loops.",
          "MIR dataflow: interprocedural role inference + post-dominator must-call + symbolic radix equality", True),
+
+ "C19": ("other",
+         "Structural agreement of compressor, expander and standard encryption on MIR: same kernel with the compressed flag constant (true/false); the stored seed is the seed of the stream that masked the cell (Source::new(s) / branch()) and the store reaches the caller's object rather than a cloned view; the seed-table index used by the encryptor equals, as a polynomial over (row, col, layout accessors), the index used by the layout's at/at_mut that feed the expander; the expander seeds one stream from the stored seed and fills columns 1..rank+1 in ascending order with the object's radix, the same loop shape as the kernel; row plaintext placement agrees between standard and compressed matrix routines. Decides these clauses for all ranks/dnum/dsize at once; bit-identity of cells is not executed.",
+         "DESIGN.md §3 C19",
+         "Trusted: kernel arithmetic (C01) and sampling primitives; accessor atoms compared by name.",
+         "MIR dataflow + polynomial identity of seed indices + iterator-shape matching", True),
 }
 NOT_BUILT = {}
 
